@@ -48,7 +48,8 @@ def keygen_attempt(fn, salt, ikm, key_info, r):
 
 
 def xor(a, b):
-    return Term("xor", (a, b), "bytes")
+    from ..term import t_xor
+    return t_xor(a, b)
 
 
 def expand_message_xmd(fn, msg, dst, L, ell):
